@@ -71,7 +71,7 @@ def run(ck):
     ck.require_interval("F2.port-positive", fl, set_port, E.m_is_ref("port"), 1, None, "addr.port(port)")
     ck.require_fact("F2.all-fields", fl, set_port, E.m_cmp("==", E.m_is_ref("n"), E.m_const(6)), True, "addr.port(port)")
     d = ck.local_defs(ip).get("port", [])
-    shape = bool(d) and all(E.key(t) == "((p1 << 8) + p2)" for t in d)
+    shape = bool(d) and all(E.ckey(t) == E.cbin("+", "(p1 << 8)", "p2") for t in d)
     if shape:
         ck.ok("F2.port-shape", ip.where(), "port = (p1 << 8) + p2")
     else:
